@@ -277,10 +277,20 @@ def main():
     # A failure INSIDE ghost text that the contract files inserted (an `assert` or lemma call written as a proof hint)
     # says that the hint no longer fits the code, not that a contract is violated: Verus assumes a failed assertion
     # afterwards, so nothing can be concluded from what follows it either.  Hint failures alone are "undecided".
+    # `model.*` clauses are modelling choices that are stronger than the property (a closed form, say).  When one fails the
+    # code has left the model: nothing in that function can be concluded by the verifier, in either direction.
+    off_model = set(f['site'] for f in failures if (f['obligation'] or '').startswith('model.'))
+    for f in failures:
+        if f['site'] in off_model:
+            f['hint'] = True
+    rel = [f for f in failures if relevant(f, prop, fn_props) or (f['site'] in off_model and prop in fn_props.get(f['site'], []))]
     hint_fail = [f for f in rel if f.get('hint')]
     rel = [f for f in rel if not f.get('hint')]
     failures = [f for f in failures if not f.get('hint')]
     if hint_fail and not rel:
+        if any(f['site'] in off_model for f in hint_fail):
+            inconclusive_exit(prop, a.repo, tier, '%s no longer matches the model clause %s (a modelling choice stronger than the property): the verifier cannot decide this function, the bounded checks of the property itself do'
+                              % (', '.join(sorted(off_model)), ', '.join(sorted(set(f['obligation'] for f in hint_fail if (f['obligation'] or '').startswith('model.'))))))
         inconclusive_exit(prop, a.repo, tier, 'a proof hint written for %s no longer goes through (%s): the proof is incomplete for the code as it is now'
                           % (', '.join(sorted(set(f['site'] or '?' for f in hint_fail))), hint_fail[0]['message']))
     if inconclusive and not rel:
